@@ -60,9 +60,15 @@ def cross_profile(results):
 
 
 def normalise_clock(obs):
-    # COK t0 t1 … and the embedded seconds inside the hex program are left alone: both builds are
-    # run within the same second almost always; a differing second is normalised here.
-    return re.sub(r'COK \d+ \d+', 'COK T T', obs)
+    """Replace the clock readings (COK t0 t1 and the same seconds embedded in the hex-encoded
+    program) by a placeholder, so that runs made in different seconds compare equal."""
+    m = re.search(r'COK (\d+) (\d+)', obs)
+    if not m:
+        return obs
+    out = obs
+    for t in {m.group(1), m.group(2)}:
+        out = out.replace(t.encode().hex(), 'T'.encode().hex() * len(t))
+    return re.sub(r'COK \d+ \d+', 'COK T T', out)
 
 
 # ------------------------------------------------------------------ C01
@@ -269,3 +275,25 @@ def gen_C19(tier, rnd):
 
 
 GENERATORS['C19'] = gen_C19
+
+
+# ------------------------------------------------------------------ parser-side streams
+import gen_parser as gp
+GENERATORS['C05'] = gp.gen_vocab
+GENERATORS['C07'] = gp.gen_numeric
+GENERATORS['C08'] = gp.gen_perm
+GENERATORS['C14'] = gp.gen_format
+GENERATORS['C18'] = gp.gen_errors
+GENERATORS['C13'] = gp.gen_options
+GENERATORS['C06'] = gp.gen_layout
+GENERATORS['C03'] = gp.gen_totality
+
+
+def gen_C17(tier, rnd):
+    a, ia = gp.gen_totality(tier, rnd)
+    b, ib = gp.gen_vocab(tier, rnd)
+    b = ['C ' + l.split(' ', 1)[1].split(' #')[0] + ' ' + hx('/dev/x') for l in b]
+    return a + b, {'rule': 'the C03 (totality) and C05 (vocabulary) corpora through a debug and a release build of the harness, observations compared request by request; ' + ia['rule'], 'streams': {'totality': len(a), 'vocab': len(b)}}
+
+
+GENERATORS['C17'] = gen_C17
